@@ -23,7 +23,7 @@ abbrev Tok := String × List (String × Option Nat)
 def resolveStr (fromFile imp : String) : String :=
   Paths.render (Paths.resolve (Paths.components fromFile) (Paths.components imp))
 
-def closure (look : String → Option (DocView String Nat)) :
+def closure (look : String → Option (Doc String Nat)) :
     Nat → List String → List (String × Option Nat) → List (String × Option Nat)
   | 0, _, acc => acc
   | _, [], acc => acc
@@ -31,7 +31,7 @@ def closure (look : String → Option (DocView String Nat)) :
     if acc.any (fun e => e.1 == p) then closure look fuel todo acc
     else match look p with
       | none => closure look fuel todo ((p, none) :: acc)
-      | some (imps, i) => closure look fuel (imps.map (resolveStr p) ++ todo) ((p, some i) :: acc)
+      | some d => closure look fuel (d.imports.map (resolveStr p) ++ todo) ((p, some d.src) :: acc)
 
 def insertSorted (x : String × Option Nat) : List (String × Option Nat) → List (String × Option Nat)
   | [] => [x]
